@@ -96,6 +96,21 @@ theorem redirect_secure {S : Std} {p : Patron} (h : Secure p) :
       · exact ⟨h, by simp⟩
       · exact follow_secure _ h (parseLocation_scheme ht).1
 
+theorem tryRedirect_secure {S : Std} {p : Patron} (r : Resp) (h : Secure p) :
+    Secure (tryRedirect S p r).p ∧ ∀ e ∈ (tryRedirect S p r).es, e.secure := by
+  have hp' : Secure ({ p with redirects := p.redirects ++ [recOf p r] } : Patron) := h
+  have hr := redirect_secure (S := S) hp'
+  unfold tryRedirect
+  simp only []
+  split
+  · refine ⟨hr.1, ?_⟩
+    intro e he
+    simp only [List.mem_append, List.mem_singleton] at he
+    rcases he with he | he
+    · exact hr.2 e he
+    · subst he; trivial
+  · exact hr
+
 theorem serviceResponse_secure {S : Std} {p : Patron} (r : Resp) (h : Secure p) :
     Secure (serviceResponse S p r).p ∧ ∀ e ∈ (serviceResponse S p r).es, e.secure := by
   unfold serviceResponse
@@ -109,7 +124,7 @@ theorem serviceResponse_secure {S : Std} {p : Patron} (r : Resp) (h : Secure p) 
     · split
       · exact ⟨h, by simp⟩
       · split
-        · exact redirect_secure (by exact h)
+        · exact tryRedirect_secure r h
         · refine ⟨h, ?_⟩
           intro e he
           simp only [List.mem_singleton] at he
@@ -299,16 +314,39 @@ theorem redirect_ok {S : Std} {p : Patron} (hne : p.redirects ≠ []) (hok : (re
         simp only [hr] at hok
         exact follow_ok hok
 
-/-- one service round in which a redirect response is followed -/
+/-- the redirect branch either follows the redirect or (Location unusable, fix D32a) delivers it, errored -/
+theorem tryRedirect_cases (S : Std) (p : Patron) (r : Resp) :
+    tryRedirect S p r = redirect S { p with redirects := p.redirects ++ [recOf p r] }
+        ∧ (tryRedirect S p r).err ≠ some .invalidURL
+    ∨ (redirect S { p with redirects := p.redirects ++ [recOf p r] }).err = some .invalidURL
+        ∧ tryRedirect S p r
+          = ⟨{ p with responses := p.responses ++ [(erroredRec p r, p.redirects)], redirects := [], waited := false },
+             [Effect.deliver], none⟩ := by
+  by_cases h : (redirect S { p with redirects := p.redirects ++ [recOf p r] }).err = some .invalidURL
+  · right
+    refine ⟨h, ?_⟩
+    unfold tryRedirect
+    simp only [h, if_true]
+    rw [redirect_invalid h]
+    rfl
+  · left
+    have : tryRedirect S p r = redirect S { p with redirects := p.redirects ++ [recOf p r] } := by
+      unfold tryRedirect
+      simp only [h, if_false]
+    exact ⟨this, by rw [this]; exact h⟩
+
+/-- one service round in which a redirect response arrives: it is followed, or — its Location being
+unusable — it is delivered and the client stops waiting -/
 theorem step_redirect {S : Std} {p : Patron} {r : Resp}
-    (hw : p.waited = true) (hra : p.redirectable = true) (hst : redirectStatus r.status = true)
+    (hw : p.waited = true) (hra : p.redirectable = true) (hq : p.queue = []) (hst : redirectStatus r.status = true)
     (hok : (step S p (.response r)).err = none) (hns : Effect.stall ∉ (step S p (.response r)).es) :
     let q := (step S p (.response r)).p
-    q.redirects = p.redirects ++ [recOf p r] ∧ q.responses = p.responses ∧ q.waited = true
+    (q.redirects = p.redirects ++ [recOf p r] ∧ q.responses = p.responses ∧ q.waited = true
       ∧ q.redirectable = true ∧ q.queue = p.queue
       ∧ ((step S p (.response r)).es.filter Effect.isSend).length = 1
-      ∧ ((step S p (.response r)).es.filter Effect.isDeliver).length = 0 := by
-  have hsr : serviceResponse S p r = redirect S { p with redirects := p.redirects ++ [recOf p r] }
+      ∧ ((step S p (.response r)).es.filter Effect.isDeliver).length = 0)
+    ∨ q.waited = false := by
+  have hsr : serviceResponse S p r = tryRedirect S p r
       ∨ (serviceResponse S p r).err ≠ none ∨ Effect.stall ∈ (serviceResponse S p r).es := by
     unfold serviceResponse
     simp only [hw, Bool.not_true, Bool.false_eq_true, if_false, hra, hst, Bool.and_self, if_true]
@@ -319,22 +357,30 @@ theorem step_redirect {S : Std} {p : Patron} {r : Resp}
       · left; rfl
   simp only [step] at hok hns ⊢
   rcases hsr with hsr | hsr | hsr
-  · have hne : ({ p with redirects := p.redirects ++ [recOf p r] } : Patron).redirects ≠ [] := by simp
-    cases herr : (serviceResponse S p r).err with
-    | some e => simp [herr] at hok
-    | none =>
-      simp only [herr] at hok hns ⊢
-      have hro := redirect_ok (S := S) hne (by rw [← hsr]; exact herr)
-      rw [← hsr] at hro
-      obtain ⟨hb, hwt, hs1, hd0, hnst⟩ := hro
-      have hsq : serviceRequests S (serviceResponse S p r).p = ⟨(serviceResponse S p r).p, [], none⟩ := by
-        unfold serviceRequests; simp [hwt]
-      simp only [hsq, List.append_nil]
-      refine ⟨?_, ?_, hwt, ?_, ?_, hs1, hd0⟩
-      · rw [hb.redirects]
-      · rw [hb.responses]
-      · rw [hb.redirectable]; exact hra
-      · rw [hb.queue]
+  · rcases tryRedirect_cases S p r with ⟨htr, _⟩ | ⟨_, htr⟩
+    · left
+      have hsr' := hsr.trans htr
+      have hne : ({ p with redirects := p.redirects ++ [recOf p r] } : Patron).redirects ≠ [] := by simp
+      cases herr : (serviceResponse S p r).err with
+      | some e => simp [herr] at hok
+      | none =>
+        simp only [herr] at hok hns ⊢
+        have hro := redirect_ok (S := S) hne (by rw [← hsr']; exact herr)
+        rw [← hsr'] at hro
+        obtain ⟨hb, hwt, hs1, hd0, hnst⟩ := hro
+        have hsq : serviceRequests S (serviceResponse S p r).p = ⟨(serviceResponse S p r).p, [], none⟩ := by
+          unfold serviceRequests; simp [hwt]
+        simp only [hsq, List.append_nil]
+        refine ⟨?_, ?_, hwt, ?_, ?_, hs1, hd0⟩
+        · rw [hb.redirects]
+        · rw [hb.responses]
+        · rw [hb.redirectable]; exact hra
+        · rw [hb.queue]
+    · right
+      rw [hsr, htr]
+      simp only []
+      unfold serviceRequests
+      simp [hq]
   · cases herr : (serviceResponse S p r).err with
     | some e => simp [herr] at hok
     | none => exact absurd herr hsr
@@ -343,6 +389,15 @@ theorem step_redirect {S : Std} {p : Patron} {r : Resp}
     | none =>
       simp only [herr] at hns
       exact absurd (List.mem_append_left _ hsr) hns
+
+/-- a response that arrives while the client does not wait for one ends the modelled history -/
+theorem run_response_not_waited {S : Std} {p : Patron} {r : Resp} {os : List Op} (hw : p.waited = false) :
+    (run S p (Op.response r :: os)).err ≠ none := by
+  simp only [run, step]
+  have : serviceResponse S p r = ⟨p, [], some .outOfModel⟩ := by
+    unfold serviceResponse; simp [hw]
+  rw [this]
+  simp
 
 /-- the service round in which the final (non-redirect) response arrives -/
 theorem step_final {S : Std} {p : Patron} {f : Resp}
@@ -390,7 +445,7 @@ theorem run_cons_ok {S : Std} {p : Patron} {o : Op} {os : List Op} (hok : (run S
 client receives redirect responses `rs` and then a non-redirect response `f`, and no exception or stalled
 body ends the history, then `.responses` grows by exactly one entry — the response `f` — whose `redirects`
 are the earlier pending ones followed by the responses `rs` **in arrival order**, each with its
-status, Location and body; `.redirects` is empty
+status, Location and body, none flagged `errored`; `.redirects` is empty
 again, the client no longer waits, exactly one request was sent per redirect and exactly one response was
 delivered. -/
 theorem C34_chain_in_order (S : Std) (rs : List Resp) (f : Resp) (p : Patron)
@@ -400,8 +455,9 @@ theorem C34_chain_in_order (S : Std) (rs : List Resp) (f : Resp) (p : Patron)
     (hns : Effect.stall ∉ (run S p (rs.map Op.response ++ [Op.response f])).es) :
     let o := run S p (rs.map Op.response ++ [Op.response f])
     ∃ chain snap,
-      o.p.responses = p.responses ++ [(⟨f.status, f.location, snap, f.body⟩, p.redirects ++ chain)]
-      ∧ chain.map (fun c => (c.status, c.location, c.body)) = rs.map (fun r => (r.status, r.location, r.body))
+      o.p.responses = p.responses ++ [(⟨f.status, f.location, snap, f.body, false⟩, p.redirects ++ chain)]
+      ∧ chain.map (fun c => (c.status, c.location, c.body, c.errored))
+          = rs.map (fun r => (r.status, r.location, r.body, false))
       ∧ o.p.redirects = [] ∧ o.p.waited = false
       ∧ (o.es.filter Effect.isSend).length = rs.length
       ∧ (o.es.filter Effect.isDeliver).length = 1 := by
@@ -422,7 +478,12 @@ theorem C34_chain_in_order (S : Std) (rs : List Resp) (f : Resp) (p : Patron)
     have hns1 : Effect.stall ∉ (step S p (.response r)).es := fun h => hns (List.mem_append_left _ h)
     have hns2 : Effect.stall ∉ (run S (step S p (.response r)).p (rest.map Op.response ++ [Op.response f])).es :=
       fun h => hns (List.mem_append_right _ h)
-    obtain ⟨h1, h2, h3, h4, h5, h6, h7⟩ := step_redirect hw hra (hrs r (by simp)) hs hns1
+    rcases step_redirect hw hra hq (hrs r (by simp)) hs hns1 with ⟨h1, h2, h3, h4, h5, h6, h7⟩ | hnw
+    case inr =>
+      -- the redirect was delivered (unusable Location): the next response finds nobody waiting
+      cases rest with
+      | nil => exact absurd hok (run_response_not_waited hnw)
+      | cons r2 rest2 => exact absurd hok (run_response_not_waited hnw)
     obtain ⟨chain, snap, hresp, hmap, hred, hwait, hsend, hdel⟩ :=
       ih (step S p (.response r)).p h3 h4 (by rw [h5]; exact hq) (fun x hx => hrs x (by simp [hx])) hok hns2
     refine ⟨recOf p r :: chain, snap, ?_, ?_, hred, hwait, ?_, ?_⟩
@@ -433,6 +494,122 @@ theorem C34_chain_in_order (S : Std) (rs : List Resp) (f : Resp) (p : Patron)
     · simp only [List.filter_append, List.length_append, h6, hsend, List.length_cons]
       omega
     · simp only [List.filter_append, List.length_append, h7, hdel]
+
+/-! ## a redirect that cannot be followed is delivered, not raised (fix D32a) -/
+
+/-- the ways a Location can be unusable: missing, empty, rejected by `urljoin`, rejected by `urlsplit` / `.port`
+(bad port, unbalanced bracket), without a host (`http://:81/x`), or naming a host that does not resolve -/
+def BadLocation (S : Std) (req : Requester) (loc : Option Str) : Prop :=
+  loc = none ∨ loc = some []
+  ∨ (∃ l, loc = some l ∧ l ≠ [] ∧ S.urljoin (baseUrl req) (locText S l) = none)
+  ∨ (∃ l u, loc = some l ∧ l ≠ [] ∧ S.urljoin (baseUrl req) (locText S l) = some u
+        ∧ ((S.urlsplit u).port = none ∨ hostless (S.urlsplit u) = true))
+  ∨ (∃ t, parseLocation S req loc = .ok t ∧ S.resolve t.hostname = none)
+
+theorem redirect_bad {S : Std} {p : Patron} {last : Rec} (hl : p.redirects.getLast? = some last)
+    (hbad : BadLocation S p.req last.location) : (redirect S p).err = some .invalidURL := by
+  unfold redirect
+  simp only [hl]
+  rcases hbad with h | h | ⟨l, h, hne, hj⟩ | ⟨l, u, h, hne, hj, hp⟩ | ⟨t, hp, hr⟩
+  · simp [h, parseLocation]
+  · simp [h, parseLocation]
+  · have hle : l.isEmpty = false := by cases l with | nil => exact absurd rfl hne | cons _ _ => rfl
+    simp [h, parseLocation, hle, hj]
+  · have hle : l.isEmpty = false := by cases l with | nil => exact absurd rfl hne | cons _ _ => rfl
+    rcases hp with hp | hp
+    · simp [h, parseLocation, hle, hj, targetOfSplit, hp]
+    · cases hpp : (S.urlsplit u).port with
+      | none => simp [h, parseLocation, hle, hj, targetOfSplit, hpp]
+      | some pp => simp [h, parseLocation, hle, hj, targetOfSplit, hpp, hp]
+  · simp [hp, hr]
+
+/-- **C34, an unusable Location** (all standard-library behaviours): a waiting, redirectable client that
+receives a complete redirect response whose Location is missing, empty, malformed or unresolvable raises
+nothing, closes nothing, opens nothing and sends nothing: the only effect is the delivery of that very
+response, flagged `errored`, carrying the redirects collected so far; connection and requester are untouched,
+`.redirects` is empty again and the client no longer waits. -/
+theorem C34_bad_location_delivered (S : Std) (p : Patron) (r : Resp)
+    (hw : p.waited = true) (hra : p.redirectable = true) (hst : redirectStatus r.status = true)
+    (hbody : r.blen = neededBody p.respMethod r) (hbad : BadLocation S p.req r.location) :
+    serviceResponse S p r
+      = ⟨{ p with responses := p.responses ++ [(erroredRec p r, p.redirects)], redirects := [], waited := false },
+         [Effect.deliver], none⟩ := by
+  have hl : ({ p with redirects := p.redirects ++ [recOf p r] } : Patron).redirects.getLast? = some (recOf p r) := by
+    simp
+  have hinv := redirect_bad (S := S) hl hbad
+  unfold serviceResponse
+  simp only [hw, Bool.not_true, Bool.false_eq_true, if_false, hra, hst, Bool.and_self, if_true, hbody,
+    Nat.lt_irrefl]
+  rcases tryRedirect_cases S p r with ⟨htr, hne⟩ | ⟨_, htr⟩
+  · rw [htr] at hne
+    exact absurd hinv hne
+  · rw [htr, hra]
+
+theorem serviceRequests_err (S : Std) (p : Patron) :
+    (serviceRequests S p).err ≠ some .invalidURL ∧ (serviceRequests S p).err ≠ some .gaiError := by
+  unfold serviceRequests
+  split
+  · exact ⟨by simp, by simp⟩
+  · split
+    · exact ⟨by simp, by simp⟩
+    · rename_i q rest _
+      unfold transmitRequest
+      simp only []
+      split
+      · rename_i e hb
+        exact ⟨by simpa using build_err hb, by simpa using build_err_gai hb⟩
+      · exact ⟨by simp, by simp⟩
+
+theorem redirect_err_gai (S : Std) (p : Patron) : (redirect S p).err ≠ some .gaiError := by
+  unfold redirect
+  split
+  · simp
+  · split
+    · rename_i e he
+      intro hc
+      simp only [Option.some.injEq] at hc
+      subst hc
+      exact parseLocation_err_gai he rfl
+    · split
+      · simp
+      · exact follow_err_gai S _ _ _
+
+/-- **C34, Location errors are contained** (all histories, all standard-library behaviours): whatever
+responses arrive, neither `httping.InvalidURL` nor a DNS failure (`socket.gaierror`) ever ends the history —
+they never leave `serviceAll`.  (What still can: the deliberate `ValueError` refusing https → http, and the
+`ValueError` / `AttributeError` of `Requester.build` and of a Location without a host.) -/
+theorem C34_location_errors_contained (S : Std) (ops : List Op) (p : Patron) :
+    (run S p ops).err ≠ some .invalidURL ∧ (run S p ops).err ≠ some .gaiError := by
+  have hstep : ∀ (p : Patron) (o : Op),
+      (step S p o).err ≠ some .invalidURL ∧ (step S p o).err ≠ some .gaiError := by
+    intro p o
+    cases o with
+    | request q => exact serviceRequests_err S _
+    | response r =>
+      have hsr : (serviceResponse S p r).err ≠ some .invalidURL ∧ (serviceResponse S p r).err ≠ some .gaiError := by
+        unfold serviceResponse
+        split
+        · exact ⟨by simp, by simp⟩
+        · split
+          · exact ⟨by simp, by simp⟩
+          · split
+            · exact ⟨by simp, by simp⟩
+            · split
+              · rcases tryRedirect_cases S p r with ⟨htr, hne⟩ | ⟨_, htr⟩
+                · exact ⟨hne, by rw [htr]; exact redirect_err_gai S _⟩
+                · rw [htr]; exact ⟨by simp, by simp⟩
+              · exact ⟨by simp, by simp⟩
+      simp only [step]
+      split
+      · exact hsr
+      · exact serviceRequests_err S _
+  induction ops generalizing p with
+  | nil => exact ⟨by simp [run], by simp [run]⟩
+  | cons o os ih =>
+    simp only [run]
+    split
+    · exact hstep p o
+    · exact ih _
 
 /-! ## the request is reissued to the resolved location -/
 
@@ -445,11 +622,16 @@ theorem serviceResponse_follow {S : Std} {p : Patron} {r : Resp} {t : Target} {i
   unfold serviceResponse
   simp only [hw, Bool.not_true, Bool.false_eq_true, if_false, hra, hst, Bool.and_self, if_true, hbody,
     Nat.lt_irrefl]
-  unfold redirect
-  have hl : (p.redirects ++ [recOf p r]).getLast? = some (recOf p r) := by simp
-  simp only [hl]
-  have hloc : (recOf p r).location = r.location := rfl
-  simp only [hloc, hp, hr]
+  have hred : redirect S { p with redirects := p.redirects ++ [recOf p r] }
+      = follow S { p with redirects := p.redirects ++ [recOf p r] } t ip := by
+    unfold redirect
+    have hl : (p.redirects ++ [recOf p r]).getLast? = some (recOf p r) := by simp
+    simp only [hl]
+    have hloc : (recOf p r).location = r.location := rfl
+    simp only [hloc, hp, hr]
+  unfold tryRedirect
+  simp only [hred, follow_err, if_false]
+  simp only [hw, hra]
 
 /-- **C34, every followed redirect asks for the parsed target** (all standard-library behaviours): the one
 request sent for a redirect keeps the method, has an empty body, names the new authority in `Host` when the
@@ -527,19 +709,27 @@ theorem normalizeHostPort_plain (h : Str) (port : Option Int) (d : Int) (hc : ':
 redirected — which is what they do for a relative reference, the base url being built from exactly those — the
 redirect target is that scheme, host and port, and (with a connection to that address) the request is reissued on the
 connection that is already open. -/
-theorem C34_relative_location_resolved_partial (S : Std) (p : Patron) (loc : Str) (ip : Str) (n : Nat)
-    (hs : p.req.scheme = sHttp ∨ p.req.scheme = sHttps)
-    (hsplit_host : (S.urlsplit (S.urljoin (baseUrl p.req) (locText S loc))).hostname = some p.req.hostname)
-    (hsplit_port : (S.urlsplit (S.urljoin (baseUrl p.req) (locText S loc))).port = some (some n)) (hn : (n : Int) = p.req.port)
-    (hsplit_scheme : (S.urlsplit (S.urljoin (baseUrl p.req) (locText S loc))).scheme = p.req.scheme)
-    (hplain : ':' ∉ p.req.hostname ∧ ∀ rest, p.req.hostname ≠ '[' :: rest)
+theorem C34_relative_location_resolved_partial (S : Std) (p : Patron) (loc u : Str) (ip : Str) (n : Nat)
+    (hs : p.req.scheme = sHttp ∨ p.req.scheme = sHttps) (hloc : loc ≠ [])
+    (hjoin : S.urljoin (baseUrl p.req) (locText S loc) = some u)
+    (hsplit_host : (S.urlsplit u).hostname = some p.req.hostname)
+    (hsplit_port : (S.urlsplit u).port = some (some n)) (hn : (n : Int) = p.req.port)
+    (hsplit_scheme : (S.urlsplit u).scheme = p.req.scheme)
+    (hplain : ':' ∉ p.req.hostname ∧ ∀ rest, p.req.hostname ≠ '[' :: rest) (hhost : p.req.hostname ≠ [])
     (hres : S.resolve p.req.hostname = some ip) (hconn : p.conn.ip = ip ∧ p.conn.port = p.req.port) :
     ∃ t, parseLocation S p.req (some loc) = .ok t ∧ t.hostname = p.req.hostname ∧ t.port = p.req.port
       ∧ t.scheme = p.req.scheme ∧ ¬ Differs p ip t := by
   have hsch : schemeOf p.req.scheme = p.req.scheme := by
     rcases hs with h | h <;> rw [h] <;> decide
+  have hle : loc.isEmpty = false := by cases loc with | nil => exact absurd rfl hloc | cons _ _ => rfl
+  have hh : hostless (S.urlsplit u) = false := by
+    unfold hostless
+    rw [hsplit_host]
+    cases h : p.req.hostname with
+    | nil => exact absurd h hhost
+    | cons _ _ => rfl
   unfold parseLocation targetOfSplit
-  simp only [hsplit_port, hsplit_host, hsplit_scheme, hsch]
+  simp only [hle, Bool.false_eq_true, if_false, hjoin, hsplit_port, hh, hsplit_host, hsplit_scheme, hsch]
   rw [normalizeHostPort_plain _ _ _ hplain.1 hplain.2]
   refine ⟨_, rfl, rfl, ?_, rfl, ?_⟩
   · simpa using hn
@@ -569,7 +759,8 @@ def cpy : Std where
       ⟨[], [], "/x".toList, "k=v".toList, [], none, some none, "/x?k=v".toList⟩
     else ⟨[], [], a, [], [], none, some none, a⟩
   urljoin _ u :=
-    if u = "/q?z?k=v".toList then "http://a.test:80/q?z?k=v".toList else u
+    if u = "/q?z?k=v".toList then some "http://a.test:80/q?z?k=v".toList
+    else if u = "http://[::1/x".toList then none else some u
   unquote a := if a = "/q%3Fz".toList then "/q?z".toList else a
   quote a := a
   quotePlus a := a
@@ -626,6 +817,125 @@ example : Secure pSec
         = [([111, 107], [[7, 8]])] := by
   decide
 
+def rNoLoc : Resp := ⟨302, none, 2, 2, [7, 8]⟩
+def rBracket : Resp := ⟨301, some "http://[::1/x".toList, 0, 0, []⟩
+def rNowhere : Resp := ⟨307, some "https://b.test:443/x?k=v".toList, 0, 0, []⟩
+
+/-- `C34_bad_location_delivered`: each kind of unusable Location occurs (missing; rejected by `urljoin`; host that does
+not resolve — `tSec.hostname` with a resolver that knows nobody), and the history `hop, bad` ends with the bad 3xx delivered,
+flagged, carrying the hop -/
+example : BadLocation cpy pWit.req rNoLoc.location
+    ∧ BadLocation cpy pWit.req rBracket.location
+    ∧ BadLocation { cpy with resolve := fun _ => none } pSec.req rNowhere.location := by
+  refine ⟨Or.inl rfl, Or.inr (Or.inr (Or.inl ⟨_, rfl, by decide, by decide⟩)), ?_⟩
+  exact Or.inr (Or.inr (Or.inr (Or.inr ⟨tSec, by decide, rfl⟩)))
+
+example : (run cpy pSec [.response rHop, .response rNoLoc]).err = none
+    ∧ ((run cpy pSec [.response rHop, .response rNoLoc]).es.filter Effect.isDeliver).length = 1
+    ∧ ((run cpy pSec [.response rHop, .response rNoLoc]).es.filter Effect.isSend).length = 1
+    ∧ ((run cpy pSec [.response rHop, .response rNoLoc]).p.responses.map
+          (fun x => (x.1.status, x.1.errored, x.1.body, x.2.map (fun c => (c.status, c.errored)))))
+        = [(302, true, [7, 8], [(302, false)])]
+    ∧ (run cpy pSec [.response rHop, .response rNoLoc]).p.waited = false
+    ∧ (run cpy pSec [.response rHop, .response rNoLoc]).p.redirects = [] := by
+  decide
+
+/-- `C34_location_errors_contained` is not empty talk: other exceptions do end histories (the refused downgrade) -/
+example : (run cpy pSec [.response ⟨302, some "http://a.test:80/q?z?k=v".toList, 0, 0, []⟩]).err = some .valueError
+    ∧ (run cpy pSec [.response rBracket]).err = none
+    ∧ (step cpy pSec (.response rBracket)).es = [Effect.deliver] := by
+  decide
+
+/-! ## construction -/
+
+theorem schemeFor_ok {connector : Option Connector} {s0 sch : Str} {sec : Bool} {dp : Int}
+    (h : schemeFor connector s0 = .ok (sch, sec, dp)) :
+    ((sch = sHttps ∧ sec = true) ∨ (sch = sHttp ∧ sec = false))
+      ∧ ∀ tls ch cp, connector = some (tls, ch, cp) → sec = tls := by
+  unfold schemeFor at h
+  split at h
+  · split at h
+    · cases h
+    · simp only [Except.ok.injEq, Prod.mk.injEq] at h
+      refine ⟨Or.inl ⟨h.1.symm, h.2.1.symm⟩, ?_⟩
+      intro tls ch cp hc
+      simp only [Option.some.injEq, Prod.mk.injEq] at hc
+      rw [← hc.1]; exact h.2.1.symm
+  · split at h
+    · cases h
+    · simp only [Except.ok.injEq, Prod.mk.injEq] at h
+      refine ⟨Or.inr ⟨h.1.symm, h.2.1.symm⟩, ?_⟩
+      intro tls ch cp hc
+      simp only [Option.some.injEq, Prod.mk.injEq] at hc
+      rw [← hc.1]; exact h.2.1.symm
+  · split at h
+    · simp only [Except.ok.injEq, Prod.mk.injEq] at h
+      exact ⟨Or.inl ⟨h.1.symm, h.2.1.symm⟩, by intro _ _ _ hc; cases hc⟩
+    · simp only [Except.ok.injEq, Prod.mk.injEq] at h
+      exact ⟨Or.inr ⟨h.1.symm, h.2.1.symm⟩, by intro _ _ _ hc; cases hc⟩
+
+/-- **C34, a constructed Patron is consistent** (all constructor arguments, all standard-library behaviours):
+however the Patron is built — host/port, a full URL as path, scheme given or not, caller-supplied plain or TLS
+connector — its requester's scheme is `https` exactly when its connection is TLS and `http` otherwise (never
+empty, never anything else); a caller-supplied connector dictates TLS, host name and port; opening is the only
+effect. -/
+theorem C34_constructed_consistent (S : Std) (url hostname : Str) (port : Option Int) (scheme : Str)
+    (connector : Option Connector) (rd : Bool) (p : Patron) (es : List Effect)
+    (h : initPatron S url hostname port scheme connector rd = .ok (p, es)) :
+    ((p.req.scheme = sHttps ∧ p.conn.tls = true) ∨ (p.req.scheme = sHttp ∧ p.conn.tls = false))
+      ∧ es = [Effect.open p.conn] ∧ p.waited = false ∧ p.redirects = [] ∧ p.queue = []
+      ∧ (∀ tls ch cp, connector = some (tls, ch, cp) →
+          p.conn.tls = tls ∧ p.conn.port = cp ∧ p.req.hostname = ch ∧ p.req.port = cp) := by
+  unfold initPatron at h
+  simp only [] at h
+  split at h
+  · cases h
+  · rename_i sch sec dp hsd
+    obtain ⟨hpair, hconn⟩ := schemeFor_ok hsd
+    split at h
+    · cases h
+    · split at h
+      · cases h
+      · split at h
+        · cases h
+        · split at h
+          · simp only [Except.ok.injEq, newPatron, Prod.mk.injEq] at h
+            obtain ⟨hp, he⟩ := h
+            subst hp; subst he
+            exact ⟨hpair, rfl, rfl, rfl, rfl, by intro _ _ _ hc; cases hc⟩
+          · rename_i tls chost cport
+            split at h
+            · cases h
+            · simp only [Except.ok.injEq, newPatron, Prod.mk.injEq] at h
+              obtain ⟨hp, he⟩ := h
+              subst hp; subst he
+              have := hconn tls chost cport rfl
+              subst this
+              refine ⟨hpair, rfl, rfl, rfl, rfl, ?_⟩
+              intro tls' ch cp hc
+              simp only [Option.some.injEq, Prod.mk.injEq] at hc
+              exact ⟨hc.1, hc.2.2, hc.2.1, hc.2.2⟩
+
+/-- a Patron constructed over a caller-supplied TLS connector, or for an https URL, starts `Secure`: the
+hypothesis of `C34_never_downgrades` -/
+theorem C34_constructed_secure (S : Std) (url hostname : Str) (port : Option Int) (scheme : Str)
+    (connector : Option Connector) (rd : Bool) (p : Patron) (es : List Effect)
+    (h : initPatron S url hostname port scheme connector rd = .ok (p, es)) (htls : p.conn.tls = true) : Secure p := by
+  rcases (C34_constructed_consistent S url hostname port scheme connector rd p es h).1 with hs | hs
+  · exact hs
+  · rw [hs.2] at htls; cases htls
+
+/-- non-vacuity: a TLS connector and no scheme gives an https Patron on that connector (the host name argument is
+ignored); a plain connector with scheme https is refused -/
+example : (initPatron cpy "/".toList "a.test".toList none [] (some (true, "b.test".toList, 8443)) true).map
+              (fun x => (x.1.req.scheme, x.1.req.hostname, x.1.req.port, x.1.conn, x.2))
+            = .ok (sHttps, "b.test".toList, 8443, ⟨"10.0.0.2".toList, 8443, true⟩,
+                   [Effect.open ⟨"10.0.0.2".toList, 8443, true⟩])
+    ∧ initPatron cpy "/".toList "a.test".toList none sHttps (some (false, "b.test".toList, 80)) true = .error .valueError
+    ∧ (initPatron cpy "/".toList "a.test".toList none [] none true).map (fun x => (x.1.req.scheme, x.1.conn))
+        = .ok (sHttp, ⟨"10.0.0.1".toList, 80, false⟩) := by
+  decide
+
 /-- `C34_no_downgrade`: hypotheses satisfiable (https client, http target) -/
 example : pSec.req.scheme = sHttps ∧ tWit.scheme ≠ sHttps
     ∧ follow cpy pSec tWit "10.0.0.1".toList = ⟨pSec, [], some .valueError⟩ := by decide
@@ -643,9 +953,10 @@ example : (cpy.urlsplit tSec.path).path = tSec.path ∧ (cpy.urlsplit tSec.path)
 
 /-- `C34_relative_location_resolved_partial`: hypotheses satisfiable — CPython's answers for the relative Location
 `/q%3Fz?k=v` followed from `http://a.test:80/p` -/
-example : (cpy.urlsplit (cpy.urljoin (baseUrl pWit.req) (locText cpy "/q%3Fz?k=v".toList))).hostname = some pWit.req.hostname
-    ∧ (cpy.urlsplit (cpy.urljoin (baseUrl pWit.req) (locText cpy "/q%3Fz?k=v".toList))).port = some (some 80)
-    ∧ (cpy.urlsplit (cpy.urljoin (baseUrl pWit.req) (locText cpy "/q%3Fz?k=v".toList))).scheme = pWit.req.scheme
-    ∧ cpy.resolve pWit.req.hostname = some pWit.conn.ip := by decide
+example : cpy.urljoin (baseUrl pWit.req) (locText cpy "/q%3Fz?k=v".toList) = some "http://a.test:80/q?z?k=v".toList
+    ∧ (cpy.urlsplit "http://a.test:80/q?z?k=v".toList).hostname = some pWit.req.hostname
+    ∧ (cpy.urlsplit "http://a.test:80/q?z?k=v".toList).port = some (some 80)
+    ∧ (cpy.urlsplit "http://a.test:80/q?z?k=v".toList).scheme = pWit.req.scheme
+    ∧ cpy.resolve pWit.req.hostname = some pWit.conn.ip ∧ pWit.req.hostname ≠ [] := by decide
 
 end Ioflo.Redirect
